@@ -295,7 +295,7 @@ func (self *TextCommandConverter) ConvertTextLockAndUnLockCommand(textProtocol I
 				_ = textProtocol.FreeLockCommand(lockCommand)
 				return nil, nil, errors.New("Command Parse WILL Error")
 			}
-			if willType > 0 && commandName != "PUSH" {
+			if willType > 0 && commandName != "PUSH" && lockCommand.CommandType <= COMMAND_UNLOCK {
 				lockCommand.CommandType += 7
 			}
 		case "SET":
